@@ -20,12 +20,12 @@ class C15(core.Check):
     level_text = ("Proved for all byte strings and all partitions: sse_fragmentation_independent (events, last event id, retry, pending bytes), "
                   "sse_in_response_fragmentation_independent (close-delimited and chunked, via the response reader), sse_refines_spec (the incremental reader equals the "
                   "whole-stream specification splitLines + fold), terminator_invariant (for lines without CR/LF any per-line choice among CRLF/LF/CR that is followed by more "
-                  "input gives the same events; the inherent CR-then-LF ambiguity is excluded by the hypothesis), lone_cr_waits (a CR that ends the buffer is not yet a terminator). "
+                  "input gives the same events; the inherent CR-then-LF ambiguity is excluded by the hypothesis), lone_cr_waits / cr_then_lf_is_one_terminator (a CR that ends the buffer is not yet a terminator; with the LF it is one CRLF). "
                   "Tied to the code by the correspondence run and the regenerated eols table; the WHATWG reading itself is checked by the implementation-side oracle.")
     level_note = ("Trusted: Lean kernel; translator; sampled correspondence; UTF-8 replacement decoding is modelled (utf8Replace) and exercised by the correspondence on "
                   "malformed sequences.  Out of scope (stated in notes): BOM, NUL in id, WHATWG's end-of-stream treatment of a final lone CR (it stays pending).")
     quick_n = 900
-    thorough_n = 15000
+    thorough_n = 40000
     rule = ("cases: generated event streams (id, event, single/multi-line data, empty data, retry valid/invalid, comments, unknown fields, unfinished tail; per-line terminator "
             "CRLF/LF/CR; 15% with malformed UTF-8), fed to EventSource alone or inside a response (close-delimited or chunked with seeded chunk sizes), each under a seeded "
             "partition incl. 1-byte reads and cuts inside CRLF; non-trivial = at least one event dispatched and at least one cut; distinct by request line")
@@ -73,7 +73,8 @@ class C15(core.Check):
             return [], None
         s = b"id: 1\r\ndata: a\rdata: b\n\r\nretry: 7\r\rdata:\n\n"
         cs = [("sse", s, (i,)) for i in range(1, len(s))] + [("sse", s, (i, j)) for i in range(1, len(s)) for j in range(i + 1, len(s))]
-        return cs, "every 1-cut and 2-cut partition of one stream mixing CRLF / LF / CR terminators"
+        cs += [("sse", b"dat" + bytes([c]) + b": x\nretry: 1" + bytes([c]) + b"\ndata:" + bytes([c]) + b"y\n\n", (5,)) for c in range(256) if c not in (10, 13)]
+        return cs, "every 1-cut and 2-cut partition of one stream mixing CRLF / LF / CR terminators; every byte value inside a field name, a retry value and a data value"
 
     def request(self, case):
         return hp.request_of(case)
